@@ -4,7 +4,7 @@
    data-tree calls XPath designates and the value under the three result
    accessors.  One family per initial state so that all TLC workers are used.   *)
 EXTENDS XPathSets, Json
-CONSTANTS Fams, NRand, RandKind, NChunks
+CONSTANTS Fams, NRand, RandKind, NChunks, WsEach
 VARIABLES fam, chunk, done
 NumOut(x) == [c |-> x.c, neg |-> x.neg, n |-> x.n, d |-> x.d]
 ReqOut(r) == [root |-> r.root, elems |-> r.elems]
@@ -12,7 +12,11 @@ Vec(e, f) ==
   LET ev == Eval(e, EmptyPath)  v == ev.v IN
   [fam |-> f,
    expr |-> Render(e, "min", 0),
-   variants |-> <<Render(e, "full", 0), Render(e, "min", 1), Render(e, "full", 2), Render(e, "min", 2), Render(e, "min", 3), Render(e, "full", 3)>>,
+   variants |-> <<Render(e, "full", 0), Render(e, "min", 1), Render(e, "full", 2), Render(e, "min", 2), Render(e, "min", 3), Render(e, "full", 3)>>
+                \o (IF Len(Toks(e, "min")) <= WsEach     \* whitespace at each single token boundary in turn
+                    THEN LET n == Len(Toks(e, "min")) - 1 IN
+                         [i \in 1..(3 * n) |-> RenderAt(e, ((i - 1) % n) + 1, IF i <= n THEN " " ELSE IF i <= 2 * n THEN "\n" ELSE " \t\r\n ")]
+                    ELSE << >>),
    prog |-> Compile(e),
    calls |-> ev.calls,
    t |-> v.t, vclass |-> ValClass(v), judged |-> v.j,
